@@ -31,16 +31,17 @@ ID = 'C18'
 LEVEL = 'exploration'
 RULE = ('case = (history of <=40 operations derived from a seed: dl/publish/remote-stream/delete(+-db)/delete-stream/'
         'rm-behind-back/add-behind-back[genuine, junk content, zero length, known hash, junk names, loose names, '
-        'directories]/bulk orphan files around the 500 batch boundary/quiesce/in-process restart/end[clean, stop-only, '
-        'abrupt]; config save_blobs on/off; one crash point (kind, phase, n) or none) followed by two fresh-process '
+        'directories, genuine file larger than the 2 MiB blob limit, blob file living on a second volume and '
+        'symlinked into the blob directory (new one / a known one moved there and linked back)]/bulk orphan files around the 500 batch boundary/quiesce/in-process restart/end[clean, stop-only, '
+        'abrupt]; one fixed history per shard that links + oversizes before anything else; config save_blobs on/off; one crash point (kind, phase, n) or none) followed by two fresh-process '
         'starts; 30% of the cases chain 2-3 such epochs on the same directory + database.  thorough additionally '
         'enumerates EVERY crash point (all kinds, phases, n) of the last history of each enumerated case.  '
         'distinct = hash(per epoch: history seed, length, profile, crash point); non-trivial = some first start had '
         'something to reconcile (a genuine blob file without a `finished` row, or a `finished` row without file)')
 ASSUMPTIONS = [
     'process death is modelled by os._exit(137) (no power loss: the page cache survives), scratch data on tmpfs',
-    'a blob file that MUST be recorded/reported = regular file, name of 96 chars 0-9a-f, non-empty, SHA-384 of content '
-    '== name; zero-length / junk-content / loosely named files and directories carrying a blob name are logged, not judged',
+    'a blob file that MUST be recorded/reported = regular file (or symbolic link that resolves to one), name of 96 chars '
+    '0-9a-f, non-empty - of ANY size, also above the 2 MiB blob limit -, SHA-384 of content == name; dangling links, zero-length / junk-content / loosely named files and directories carrying a blob name are logged, not judged',
     'the first start may report fewer blobs than files present (statement asks equality only for the further restart)',
     'in-process restarts are observed only at quiescent points (all add_blobs tasks awaited)',
     'failpoint n-th-call numbering is deterministic up to thread completion order; witnesses carry the pre-start state',
@@ -50,6 +51,7 @@ REQUIRED_HITS = [
     'class.file_without_row', 'class.file_with_pending_row', 'class.finished_row_without_file',
     'class.pending_row_without_file', 'class.finished_row_with_file', 'class.over_500_unrecorded',
     'class.junk_name_file', 'class.zero_length_valid_name', 'class.valid_name_junk_content',
+    'class.symlinked_file_unrecorded', 'class.symlinked_file_with_finished_row', 'class.oversize_file_unrecorded',
     'crash.fired', 'crash.left_file_unrecorded', 'crash.fired.write_blob.closed', 'crash.fired.add_blobs.entry',
     'crash.fired.add_blobs.exit', 'crash.fired.blob_completed.entry', 'crash.fired.blob_completed.exit',
     'end.clean', 'end.abrupt', 'op.dl', 'op.publish', 'op.remote_stream', 'op.del', 'op.del_keep_db', 'op.rm', 'op.add',
@@ -126,15 +128,21 @@ def gen_cases(rng, tier, shard, nshards):
             rec.note('stopped_on_budget', True)
             return True
         return False
+    def vol2(first_seed):   # one fixed, cheap history per shard (its seed derived without drawing from rng)
+        return {'fam': 'one', 'seed': (first_seed * 2654435761 + shard + 1) % 2 ** 40, 'nops': 3, 'profile': 'vol2', 'crash': None}
     if tier == 'quick':
-        yield {'fam': 'one', 'seed': rng.getrandbits(40), 'nops': 4, 'profile': 'bulk%d' % BULK_NS[shard % len(BULK_NS)],
+        first = rng.getrandbits(40)
+        yield {'fam': 'one', 'seed': first, 'nops': 4, 'profile': 'bulk%d' % BULK_NS[shard % len(BULK_NS)],
                'crash': None}
+        yield vol2(first)
         for i in range(420):
             if budget_gone():
                 return
             yield one([2, 3, 5, 8, 12, 16, 20, 25])
     else:
-        yield {'fam': 'enum', 'seed': rng.getrandbits(40), 'nops': 3, 'profile': 'bulk%d' % BULK_NS[shard % len(BULK_NS)]}
+        first = rng.getrandbits(40)
+        yield {'fam': 'enum', 'seed': first, 'nops': 3, 'profile': 'bulk%d' % BULK_NS[shard % len(BULK_NS)]}
+        yield vol2(first)
         for i in range(4000):
             if budget_gone():
                 return
@@ -181,6 +189,18 @@ def gen_history(seed, nops, profile, epoch=0):
         ops.append(['bulk_add', n])
         if r.random() < 0.5:
             ops.append(['restart', r.random() < 0.5])
+    if profile == 'vol2':
+        # part of the blob store lives on a second volume and is linked back; a file above the blob size limit is present
+        conf['save_blobs'] = True
+        ops.append(['dl', 0, 1000, 'one', 'db', 0])
+        ops.append(['dl', 1, 4096, 'two', 'db', 1])
+        nb = 2
+        ops.append(['add', 'link_known', 0, 0, 16, _hexname(r)])            # known[0] = blob 0: finished row, moved + linked back
+        ops.append(['add', 'link_genuine', 1, r.getrandbits(16), r.choice([1, 16, 1000, 4096]), _hexname(r)])
+        ops.append(['add', 'genuine_oversize', 2, r.getrandbits(16), 16, _hexname(r)])
+        nadd = 3
+        if r.random() < 0.5:
+            ops.append(['restart', r.choice([False, True, 'same'])])
     sizes = [1, 2, 15, 16, 17, 100, 1000, 1000, 4096, 4096, 65536]
     for _ in range(nops):
         x = r.random() * 100
@@ -221,8 +241,9 @@ def gen_history(seed, nops, profile, epoch=0):
             ops.append(['rm', r.getrandbits(16)])
         elif x < 84:
             cls = r.choices(['genuine', 'valid_junk', 'valid_empty', 'known', 'junk_short', 'junk_long', 'junk_upper',
-                             'junk_text', 'loose_comma', 'loose_newline', 'dir_junk', 'dir_hash', 'dir_known'],
-                            weights=[22, 10, 10, 22, 5, 5, 5, 5, 4, 3, 3, 3, 3])[0]
+                             'junk_text', 'loose_comma', 'loose_newline', 'dir_junk', 'dir_hash', 'dir_known',
+                             'link_genuine', 'link_known', 'genuine_oversize'],
+                            weights=[22, 10, 10, 22, 5, 5, 5, 5, 4, 3, 3, 3, 3, 4, 6, 2])[0]
             ops.append(['add', cls, nadd, r.getrandbits(16), r.choice([1, 16, 1000, 4096]), _hexname(r)])
             nadd += 1
         elif x < 87:
@@ -598,9 +619,13 @@ class Driver:
         return False
 
     def op_add(self, cls, idx, k, size, hexname):
+        if cls == 'genuine_oversize':      # a file present above the blob size limit (exactly the limit: `dl` does that)
+            size = [MAXB + 1, MAXB + 4096, 2 * MAXB, MAXB + 1][k % 4]
         data = content_for(self.seed, 'add', idx, size)
         name, mkdir = None, False
-        if cls == 'genuine':
+        if cls in ('link_genuine', 'link_known'):
+            return self.op_link(cls, idx, k, data)
+        if cls in ('genuine', 'genuine_oversize'):
             name = blobbook.blob_name_of(data)
             self.learn(name, data)
         elif cls == 'valid_junk':
@@ -641,6 +666,40 @@ class Driver:
         elif not os.path.isdir(p):
             with open(p, 'wb') as f:
                 f.write(data)
+
+    def op_link(self, cls, idx, k, data):
+        """behind the manager's back: a blob file that lives on a second volume and is symlinked into the blob directory
+        under its hash - a new one (`link_genuine`), or a known one: its regular file is moved away and linked back, or,
+        when it has no entry at present and its content is known, it is restored on the second volume and linked in"""
+        if cls == 'link_genuine':
+            name = blobbook.blob_name_of(data)
+            self.learn(name, data)
+        else:
+            name = self.pick(k)
+            if name is None:
+                return
+        p = os.path.join(self.bdir, name)
+        vol2 = os.path.join(self.work, 'vol2')
+        os.makedirs(vol2, exist_ok=True)
+        target = os.path.join(vol2, 'e%d-%d-%s' % (self.epoch, idx, name[:24]))
+        if os.path.lexists(target):
+            return
+        if not os.path.lexists(p):
+            data = data if cls == 'link_genuine' else self.content.get(name)
+            if not data:
+                return
+            with open(target, 'wb') as f:
+                f.write(data)
+        elif os.path.isfile(p) and not os.path.islink(p):
+            shutil.move(p, target)
+        else:
+            return
+        try:
+            os.symlink(target, p)
+        except FileExistsError:         # a file write still in flight (dl with wait='none') created the entry meanwhile
+            os.remove(target)
+            return
+        self.emit({'t': 'note', 'what': 'linked.' + ('new_file' if cls == 'link_genuine' else 'known_blob')})
 
     def op_bulk_add(self, n):
         for i in range(n):
